@@ -159,26 +159,48 @@ def _binding_annotation(outer: ast.AST, name: str, stores: List[ast.AST], rest: 
 
 
 def _lift_generator_closures(tree: ast.Module) -> None:
-    """Normalisation at load time: a *generator* defined inside a module-level function that takes no arguments and
-    reads variables of the enclosing function is a private helper written as a closure.  The rule tables know such
-    helpers as module-level generators with parameters (``_zip_inner(aiters)``), so the closure is lambda-lifted:
-    it moves to module level as ``_<outer>__<name>(free variables)`` and each call ``name()`` becomes
-    ``_<outer>__<name>(free variables)``.  Only done where that is evidently the same program: the closure has no
-    parameters, decorators, ``nonlocal`` / ``global`` declarations and does not refer to itself; its name is used in the
-    enclosing function in call position only; every free variable is a parameter or is bound exactly once in the
-    enclosing function, textually before the closure, is never deleted there and is not bound inside the closure -
-    so the value the closure reads while it runs is the value at the time of the call."""
+    """Normalisation at load time: a function defined inside a module-level function, called there by its name only and
+    reading variables of the enclosing function, is a private helper written as a closure.  The rules and tables know such
+    helpers as module-level functions with parameters (``_zip_inner(aiters)``), so the closure is lambda-lifted: it moves
+    to module level as ``_<outer>__<name>(free variables, own parameters)`` and each call ``name(args)`` becomes
+    ``_<outer>__<name>(free variables, args)``.  Only done where that is evidently the same program: the closure has plain
+    positional parameters only, no decorators, no ``nonlocal`` / ``global`` declarations, no nested function and does not
+    refer to itself; it is not defined inside a loop; its name is used in the enclosing function in call position only
+    (with plain positional arguments); every free variable is bound in the enclosing function (as a parameter or by
+    assignments) only textually *before* the closure, is never deleted there and is not bound inside the closure - so the
+    value the closure reads while it runs is the value at the time of the call."""
     new_body: List[ast.stmt] = []
     for outer in tree.body:
         new_body.append(outer)
         if not isinstance(outer, (ast.FunctionDef, ast.AsyncFunctionDef)):
             continue
-        for inner in [n for n in outer.body if isinstance(n, (ast.FunctionDef, ast.AsyncFunctionDef))]:
+        # closures at statement level of the function: directly in its body or in a with / try / if block, not in a loop
+        found: List[Tuple[ast.AST, List[ast.stmt]]] = []
+
+        def scan(body: List[ast.stmt]) -> None:
+            for st in body:
+                if isinstance(st, (ast.FunctionDef, ast.AsyncFunctionDef)):
+                    found.append((st, body))
+                elif isinstance(st, (ast.With, ast.AsyncWith)):
+                    scan(st.body)
+                elif isinstance(st, ast.If):
+                    scan(st.body)
+                    scan(st.orelse)
+                elif isinstance(st, ast.Try):
+                    scan(st.body)
+                    scan(st.orelse)
+                    scan(st.finalbody)
+                    for h in st.handlers:
+                        scan(h.body)
+        scan(outer.body)
+        for inner, home in found:
             a = inner.args
-            if inner.decorator_list or a.args or a.posonlyargs or a.kwonlyargs or a.vararg or a.kwarg:
+            if inner.decorator_list or a.posonlyargs or a.kwonlyargs or a.vararg or a.kwarg or a.defaults:
                 continue
+            own = [p.arg for p in a.args]
             inside = [x for st in inner.body for x in ast.walk(st)]
-            if not any(isinstance(x, (ast.Yield, ast.YieldFrom)) for x in inside):
+            is_gen = any(isinstance(x, (ast.Yield, ast.YieldFrom)) for x in inside)
+            if is_gen and own:
                 continue
             if any(isinstance(x, (ast.Nonlocal, ast.Global, ast.FunctionDef, ast.AsyncFunctionDef, ast.Lambda, ast.ClassDef))
                    for x in inside):
@@ -189,12 +211,13 @@ def _lift_generator_closures(tree: ast.Module) -> None:
             rest = [x for x in ast.walk(outer) if id(x) not in inner_ids and x is not outer]
             uses = [x for x in rest if isinstance(x, ast.Name) and x.id == inner.name]
             calls = [x for x in rest if isinstance(x, ast.Call) and isinstance(x.func, ast.Name) and x.func.id == inner.name
-                     and not x.args and not x.keywords]
+                     and len(x.args) == len(own) and not x.keywords and not any(isinstance(y, ast.Starred) for y in x.args)]
             if not calls or len(uses) != len(calls) or any(isinstance(x.ctx, ast.Store) for x in uses):
                 continue
             if any(isinstance(x, ast.Nonlocal) for x in rest):
                 continue          # another closure might rebind a variable: keep it simple
-            bound_inner = {x.id for x in inside if isinstance(x, ast.Name) and isinstance(x.ctx, (ast.Store, ast.Del))}
+            bound_inner = {x.id for x in inside if isinstance(x, ast.Name) and isinstance(x.ctx, (ast.Store, ast.Del))} | set(own)
+            bound_inner |= {x.name for x in inside if isinstance(x, ast.ExceptHandler) and x.name}
             loaded = []
             for x in inside:
                 if isinstance(x, ast.Name) and isinstance(x.ctx, ast.Load) and x.id not in loaded:
@@ -208,29 +231,63 @@ def _lift_generator_closures(tree: ast.Module) -> None:
                     stores.setdefault(x.id, []).append(x)
                 elif isinstance(x, ast.ExceptHandler) and x.name:
                     stores.setdefault(x.name, []).append(x)          # type: ignore[arg-type]
+                elif isinstance(x, (ast.FunctionDef, ast.AsyncFunctionDef, ast.ClassDef)):
+                    stores.setdefault(x.name, []).append(x)          # type: ignore[arg-type]
             free = [n for n in loaded if n not in bound_inner and (n in params or n in stores)]
             ok = True
             for n in free:
                 ss = stores.get(n, [])
-                if n in params:
-                    ok = ok and not ss
-                else:
-                    ok = ok and len(ss) == 1 and isinstance(ss[0], ast.Name) and isinstance(ss[0].ctx, ast.Store) \
-                        and ss[0].lineno < inner.lineno
+                ok = ok and all(isinstance(x, ast.Name) and isinstance(x.ctx, ast.Store) and x.lineno < inner.lineno for x in ss)
             if not ok or not free:
                 continue
             lifted_name = f"_{outer.name.lstrip('_')}__{inner.name.lstrip('_')}"
             if any(isinstance(n, (ast.FunctionDef, ast.AsyncFunctionDef, ast.ClassDef)) and n.name == lifted_name for n in tree.body):
                 continue
-            outer.body.remove(inner)
+            home.remove(inner)
+            if not home:
+                home.append(ast.copy_location(ast.Pass(), inner))
             inner.name = lifted_name
             inner.args.args = [ast.copy_location(ast.arg(arg=n, annotation=_binding_annotation(outer, n, stores.get(n, []), rest)),
-                                                 inner) for n in free]
+                                                 inner) for n in free] + list(a.args)
             for c in calls:
                 c.func.id = lifted_name          # type: ignore[attr-defined]
-                c.args = [ast.copy_location(ast.Name(id=n, ctx=ast.Load()), c) for n in free]
+                c.args = [ast.copy_location(ast.Name(id=n, ctx=ast.Load()), c) for n in free] + list(c.args)
             new_body.append(inner)
     tree.body[:] = new_body
+    ast.fix_missing_locations(tree)
+
+
+def _unalias_methods(tree: ast.Module) -> None:
+    """Normalisation at load time: ``alias = method`` in a class body, where ``method`` is an undecorated method with plain
+    positional parameters defined earlier in the same body, is a second name for that method; it becomes the forwarding
+    ``def alias(self, ..): return self.method(..)`` the rules know (same calls, same result object)."""
+    for cls in [n for n in ast.walk(tree) if isinstance(n, ast.ClassDef)]:
+        defined: Dict[str, ast.AST] = {}
+        for i, st in enumerate(list(cls.body)):
+            if isinstance(st, (ast.FunctionDef, ast.AsyncFunctionDef)):
+                defined[st.name] = st
+                continue
+            if not (isinstance(st, ast.Assign) and len(st.targets) == 1 and isinstance(st.targets[0], ast.Name)
+                    and isinstance(st.value, ast.Name) and st.value.id in defined and st.targets[0].id not in defined):
+                continue
+            target = defined[st.value.id]
+            a = target.args          # type: ignore[attr-defined]
+            if target.decorator_list or a.posonlyargs or a.kwonlyargs or a.vararg or a.kwarg or a.defaults or not a.args:  # type: ignore[attr-defined]
+                continue
+            names = [p.arg for p in a.args]
+            call = ast.Call(func=ast.Attribute(value=ast.Name(id=names[0], ctx=ast.Load()), attr=st.value.id, ctx=ast.Load()),
+                            args=[ast.Name(id=n, ctx=ast.Load()) for n in names[1:]], keywords=[])
+            fwd = ast.FunctionDef(name=st.targets[0].id,
+                                  args=ast.arguments(posonlyargs=[], args=[ast.arg(arg=n, annotation=None) for n in names], vararg=None,
+                                                     kwonlyargs=[], kw_defaults=[], kwarg=None, defaults=[]),
+                                  body=[ast.Return(value=call)], decorator_list=[], returns=None, type_comment=None)
+            if hasattr(fwd, "type_params"):
+                fwd.type_params = []
+            fwd = ast.copy_location(fwd, st)
+            for sub in ast.walk(fwd):
+                ast.copy_location(sub, st)
+            cls.body[cls.body.index(st)] = fwd
+            defined[fwd.name] = fwd
     ast.fix_missing_locations(tree)
 
 
@@ -446,6 +503,7 @@ class Module:
         except SyntaxError as exc:
             raise AnalysisError(f"cannot parse {relpath}: {exc}") from None
         self.digest = hashlib.sha256(self.source.encode()).hexdigest()[:16]
+        _unalias_methods(self.tree)
         _lift_generator_closures(self.tree)
         _split_mode_helpers(self.tree)
         # name -> ('import', module, name) | ('def', node) | ('class', node) | ('assign', value)
